@@ -156,10 +156,19 @@ func (t *vTransport) Close() error {
 
 // vRandReader replaces crypto/rand.Reader: every byte is a fresh arbitrary input, and what was handed out is logged.
 type vRandReader struct {
-	log []byte
+	log      []byte
+	concrete bool // hand out a fixed, position-dependent byte pattern instead of arbitrary bytes
+	variant  int
 }
 
 func (r *vRandReader) Read(p []byte) (int, error) {
+	if r.concrete {
+		for i := range p {
+			p[i] = byte(0x5a + 7*(len(r.log)+i) + 31*r.variant)
+		}
+		r.log = append(r.log, p...)
+		return len(p), nil
+	}
 	b := vBytes("rand", len(p))
 	copy(p, b)
 	r.log = append(r.log, b...)
